@@ -522,6 +522,60 @@ def c18_5(ck, prog):
             r.ok('%s:failure-leaves-no-rules' % name)
 
 
+def c18_8(ck, prog):
+    r = ck.rule('C18.8', 'monitors are shown a message with the parties it is actually routed with: where a function '
+                'captures a message for monitors and also dispatches / sends that same message, sender and addressed '
+                'recipient are the same expressions in both calls', 'WHO',
+                breaks='a monitor filtering on destination= (or sender=) misses messages addressed to that name, and one '
+                'filtering on another connection is shown messages that were never addressed to it', floor=3)
+    from engine.cfg import same_expr
+    ROUTE = {'bus_dispatch_matches': (1, 2, 3), 'bus_transaction_send': (1, 2, 3),
+             'bus_transaction_send_from_driver': (None, 1, 2)}
+    n = [0]
+    for fn in lib.prod_funcs(prog, {'bus/dispatch.c', 'bus/activation.c', 'bus/connection.c', 'bus/driver.c'}):
+        caps = {c['id']: c for b, i, c in fn.calls('bus_transaction_capture') if len(c['args']) >= 4}
+        if not caps or not fn.calls(tuple(ROUTE)):
+            continue
+        seen_ok = set()
+
+        def on_event(user, ev, ctx, fn=fn, caps=caps, seen_ok=seen_ok):
+            # user: the capture call currently "in force" for a message variable
+            for lhs, how, rhs in written_lvalues(ev):
+                if user is not None and is_ref(lhs) and is_ref(caps[user]['args'][3]) \
+                        and lhs.get('id') == caps[user]['args'][3].get('id') and how != '&arg':
+                    user = None
+            if ev['ev'] == 'call':
+                c = ev['e']
+                if c['id'] in caps:
+                    return c['id']
+                if user is not None and c.get('callee') in ROUTE:
+                    cap = caps[user]
+                    si, ai, mi = ROUTE[c['callee']]
+                    if len(c['args']) > mi and same_expr(cap['args'][3], c['args'][mi]):
+                        n[0] += 1
+                        okA = same_expr(cap['args'][2], c['args'][ai])
+                        okS = si is None or same_expr(cap['args'][1], c['args'][si])
+                        if okA and okS:
+                            seen_ok.add('%s:%s' % (fn.name, c['callee']))
+                        elif is_int(cap['args'][2], 0):
+                            seen_ok.add('%s:%s' % (fn.name, c['callee']))
+                        else:
+                            ctx.report('the message is shown to monitors as (sender %s, addressee %s) but routed as '
+                                       '(sender %s, addressee %s)' % (
+                                           estr(cap['args'][1]), estr(cap['args'][2]),
+                                           estr(c['args'][si]) if si is not None else 'the bus', estr(c['args'][ai])),
+                                       cap['line'], key=(c['callee'], cap['line']))
+            return user
+        ex = Explorer(fn, init=None, on_event=on_event, track=None, cap=600000).run()
+        if ex.reports:
+            r.from_reports(ex.reports, keyfn=lambda k, rep, fn=fn: '%s:capture-vs-%s' % (fn.name, k[0]))
+        for k in sorted(seen_ok):
+            r.ok(k)
+    n = n[0]
+    if n < 3:
+        raise AnalysisBroken('capture / route pairs not found (%d)' % n)
+
+
 def run(ck):
     ck.explanation = (
         'Static must-pass-through / typestate rules over bus/dispatch.c, bus/connection.c, bus/driver.c: every '
@@ -540,6 +594,7 @@ def run(ck):
         c18_4(ck, prog)
         c18_4c(ck, prog)
         c18_5(ck, prog)
+        c18_8(ck, prog)
         # what a new monitor still has outstanding is disposed of by bus_connection_drop_pending_replies
         from rules.C09 import c09_3
         r7 = ck.rule('C18.7', 'dropping the pending replies of a connection (disconnect, BecomeMonitor) removes '
